@@ -169,8 +169,20 @@ func (p *Program) Eval() Expected {
 		case "load":
 			v := mk()
 			mask := uint32(1)<<p.InLog2[o.K] - 1
-			for i := range v {
-				v[i] = in[o.K][vals[o.A][i]&mask]
+			if o.N > 1 {
+				half := uint32(1)<<(p.InLog2[o.K]-1) - 1
+				for i := range v {
+					idx := vals[o.A][i]&half + o.Imm
+					x := uint32(0)
+					for j := 0; j < o.N; j++ {
+						x ^= in[o.K][idx+uint32(j)]
+					}
+					v[i] = x
+				}
+			} else {
+				for i := range v {
+					v[i] = in[o.K][vals[o.A][i]&mask]
+				}
 			}
 			vals = append(vals, v)
 		case "sload":
